@@ -77,7 +77,7 @@ def serve():
             dtype = torch.float64 if job.get("dtype64") else torch.float32
             if job.get("dtype64"):
                 root.double()
-            sd = torch.load(io.BytesIO(base64.b64decode(job["ckpt"])), weights_only=True)
+            sd = torch.load(io.BytesIO(base64.b64decode(job["ckpt"])), weights_only=False)
             res = root.load_state_dict(sd, strict=True)
             if res.missing_keys or res.unexpected_keys:
                 raise RuntimeError("missing %s unexpected %s" % (res.missing_keys, res.unexpected_keys))
